@@ -37,6 +37,50 @@ theorem recycled_stays_recycled (st : St) (hm : st.mark = true) (ops : List Op) 
       · subst hx; exact h1.2.1
       · exact ih.2 x hx⟩
 
+/-! ### the retry loops re-check the mark on every pass -/
+
+private theorem retryLoop_marked (m : Meth) (st : St) (hm : st.mark = true) (ds : List Between) :
+    retryLoop m st ds = (st, [], .recycled) := by
+  cases ds <;> simp [retryLoop, hm]
+
+/-- **released_client_sends_nothing.** A Do / DoMulti / Receive that is inside its retry loop when
+    the client is released or closed (by another goroutine, during a retry delay) makes no further
+    call on the wire and returns ErrDedicatedClientRecycled — whatever the remaining passes would
+    have been (`rest` is any number of further retry delays with anything happening in them). The
+    wire calls are exactly: the passes before the release, the release's own hand-back sequence. -/
+theorem released_client_sends_nothing (m : Meth) (st : St) (hm : st.mark = false) (k : Nat) (b : Between)
+    (hb : b ≠ .nothing) (rest : List Between) :
+    retryLoop m st (List.replicate k .nothing ++ b :: rest) =
+      ((between st b).1, List.replicate (k + 1) m.call ++ (between st b).2, .recycled) ∧
+    (between st b).1.mark = true := by
+  have hmark : (between st b).1.mark = true := by
+    cases b with
+    | nothing => exact absurd rfl hb
+    | release => simp [between, release, hm]
+    | close => simp [between, step, hm]
+  refine ⟨?_, hmark⟩
+  induction k with
+  | zero =>
+    simp only [List.replicate, List.nil_append, retryLoop, hm, Bool.false_eq_true, if_false]
+    rw [retryLoop_marked m _ hmark rest]
+    simp
+  | succ k ih =>
+    have hn : between st .nothing = (st, []) := rfl
+    simp only [List.replicate_succ, List.cons_append, retryLoop, hm, Bool.false_eq_true, if_false, hn,
+      List.nil_append]
+    rw [ih]
+    simp [List.replicate_succ]
+
+/-- a call that starts on a recycled client never reaches the wire, for any retry script -/
+theorem recycled_retry_sends_nothing (m : Meth) (st : St) (hm : st.mark = true) (ds : List Between) :
+    retryLoop m st ds = (st, [], .recycled) := retryLoop_marked m st hm ds
+
+/-- non-vacuity: two LOADING answers, released during the second delay, a third pass never happens -/
+example : retryLoop .do_ {} [.nothing, .release, .nothing] =
+    ({ mark := true }, [.wDo, .wDo, .wGetHooks, .wSetHooks {}, .wClean, .poolStore], .recycled) := by decide
+/-- and an undisturbed loop does retry -/
+example : (retryLoop .do_ {} [.nothing, .nothing]).2 = ([.wDo, .wDo, .wDo], .ok) := by decide
+
 /-- release and Close both recycle the client -/
 theorem release_marks (st : St) : (step st .release).1.mark = true ∧ (step st .close).1.mark = true := by
   cases hm : st.mark <;> simp [step, release, hm]
